@@ -31,12 +31,27 @@ def main(argv):
         return c.finish("n/a")
     rng = c.rng
     dis = 0
+    model_cache = {}
+
+    def model_run(lines):
+        return [model_cache[l] for l in lines]
+
+    def model_prefetch(lines):
+        todo = [l for l in dict.fromkeys(lines) if l not in model_cache]
+        # the 1 MiB expansions dominate: one batch over all cores, longest first
+        todo.sort(key=lambda l: -len(l) if l.startswith(("p2m", "pymaster")) or (l.startswith("keytype") and int(l.split(" ")[2]) & 0xC0 == 0) else 0)
+        out = vf.run_lines(v3exe, todo, shards=min(16, max(1, len(todo))))
+        model_cache.update(zip(todo, out))
     # ---- password -> master key
-    lens = [1, 2, 3, 7, 8, 10, 64, 1000, 4096] + ([2 ** 20 - 1, 2 ** 20, 2 ** 20 + 1, 65536, 333, 524288, 524289] if thorough else [2 ** 20 + 1])
+    lens = [1, 64, 4096] + ([2, 3, 7, 8, 10, 1000, 2 ** 20 - 1, 2 ** 20, 2 ** 20 + 1, 65536, 333, 524288, 524289] if thorough else [2 ** 20 + 1])
     pws = [b"maplesyrup"] + [gen.rbytes(rng, n, False) for n in lens]
     lines = ["p2m %d %s" % (alg, pw.hex()) for pw in pws for alg in (1, 2)]
     lines += ["p2m 1 -", "p2m 2 -"]          # the raw function divides by the password length (callers must refuse first)
-    mo = vf.run_lines(v3exe, lines, shards=min(16, len(lines)))
+    lines_p2m = lines
+    lines_keys, calls, sess, short_pw = build_key_cases(rng, thorough)
+    py_lines = [("pymaster %d %s" % (a[1], a[2] or "-")) if a[0] == "master" else ("pylocalized %d %s %s" % (a[1], a[2] or "-", a[3] or "-")) for a in calls]
+    model_prefetch(lines_p2m + lines_keys + py_lines)
+    mo = model_run(lines)
     ro = vf.run_lines(cd.rel, lines, shards=4)
     for ln, ml, rl in zip(lines, mo, ro):
         _, alg, pwh = ln.split(" ")
@@ -59,26 +74,8 @@ def main(argv):
         if ln in rfc and (ml != rfc[ln] or rl != rfc[ln]):
             c.violation("RFC 3414 A.3 vector fails: %s -> model %s impl %s" % (ln, ml, rl), {"cmd": ln, "expected": rfc[ln]}, key="rfc-vector")
     # ---- localisation, key-type dispatch, malformed material (fast)
-    lines = []
-    for _ in range(3000 if thorough else 600):
-        alg = rng.choice([1, 2])
-        eng = gen.rbytes(rng, rng.randint(0, 32), False)
-        key = gen.rbytes(rng, KS[alg], False)
-        lines.append("localize %d %s %s" % (alg, key.hex(), gen.hx(eng)))
-    for alg in (1, 2):
-        for n in range(0, 65):
-            for kt in (64, 128):
-                lines.append("keytype %d %d %s %s" % (alg, alg | kt, gen.hx(gen.rbytes(rng, n, False)), gen.hx(gen.rbytes(rng, rng.randint(0, 12), False))))
-        for kt in (0, 64, 128, 192):
-            lines.append("keytype %d %d %s 0102" % (alg, alg | kt, gen.hx(gen.rbytes(rng, KS[alg], False))))
-        lines.append("keytype %d %d - 0102" % (alg, alg))
-    for code in [0, 3, 4, 63, 65, 66, 67, 129, 130, 131, 255]:
-        lines.append("keytype %d %d %s 01" % (code, code, "00" * 16))
-    short_pw = [gen.rbytes(rng, rng.choice([1, 5, 64, 1024, 4096]), False) for _ in range(6 if thorough else 2)]
-    for pw in short_pw:
-        for alg in (1, 2):
-            lines.append("keytype %d %d %s %s" % (alg, alg, pw.hex(), gen.hx(gen.rbytes(rng, rng.randint(5, 32), False))))
-    mo = vf.run_lines(v3exe, lines, shards=16)
+    lines = lines_keys
+    mo = model_run(lines)
     ro = vf.run_lines(cd.rel, lines)
     do = vf.run_lines(cd.dbg, lines)
     for ln, ml, rl, dl in zip(lines, mo, ro, do):
@@ -116,23 +113,11 @@ def main(argv):
                 c.violation("as_key_type(%s, type bits %#x, %d-octet key) = %s, expected %s" % (ALGN[alg], kt, len(key), rl[:50], want[:50]),
                             {"cmd": ln, "expected": want, "observed": rl}, key="keytype:%#x" % kt)
     # ---- the functions exposed to Python and the keys a session really uses
-    calls = []
-    for alg in (0, 1, 2, 3, 64, 200):
-        for pw in [b"", b"a", b"maplesyrup", gen.rbytes(rng, 100, False)]:
-            calls.append(["master", alg, pw.hex()])
-        for n in (0, 15, 16, 17, 20, 21):
-            calls.append(["localized", alg, gen.rbytes(rng, n, False).hex(), gen.rbytes(rng, rng.randint(0, 32), False).hex()])
-    sess = []
-    for alg, aalg in (("md5", 1), ("sha1", 2)):
-        for kt in (0, 1, 2):
-            for n in ([1, 8, KS[aalg] - 1, KS[aalg], KS[aalg] + 5] if kt else [1, 8, 33]):
-                sess.append({"alg": alg, "kt": kt, "key": gen.rbytes(rng, n, False).hex(), "engine": gen.rbytes(rng, rng.randint(5, 32), False).hex()})
     res, log = vf.run_api_worker("C12", {"calls": calls, "sessions": sess})
     if res is None:
         c.errors.append("API worker failed: " + log[-1500:])
     else:
-        ml = vf.run_lines(v3exe, [("pymaster %d %s" % (a[1], a[2] or "-")) if a[0] == "master" else ("pylocalized %d %s %s" % (a[1], a[2] or "-", a[3] or "-"))
-                                  for a in calls], shards=8)
+        ml = model_run(py_lines)
         for a, out, m in zip(calls, res["calls"], ml):
             c.count(("api",) + tuple(a), True)
             if out != m:
@@ -172,6 +157,43 @@ def main(argv):
              "localized keys of aligned and unaligned sizes whose first request is verified under the independently derived key; "
              "non-trivial = password length not dividing 2^20" % lens,
         extra={"disagreements": dis})
+
+
+def build_key_cases(rng, thorough):
+    """Everything that does not depend on outputs, so that all model hashing can run in one parallel batch."""
+    lines = []
+    for _ in range(3000 if thorough else 600):
+        alg = rng.choice([1, 2])
+        eng = gen.rbytes(rng, rng.randint(0, 32), False)
+        key = gen.rbytes(rng, KS[alg], False)
+        lines.append("localize %d %s %s" % (alg, key.hex(), gen.hx(eng)))
+    for alg in (1, 2):
+        for n in range(0, 65):
+            for kt in (64, 128):
+                lines.append("keytype %d %d %s %s" % (alg, alg | kt, gen.hx(gen.rbytes(rng, n, False)), gen.hx(gen.rbytes(rng, rng.randint(0, 12), False))))
+        for kt in (0, 64, 128, 192):
+            lines.append("keytype %d %d %s 0102" % (alg, alg | kt, gen.hx(gen.rbytes(rng, KS[alg], False))))
+        lines.append("keytype %d %d - 0102" % (alg, alg))
+    for code in [0, 3, 4, 63, 65, 66, 67, 129, 130, 131, 255]:
+        lines.append("keytype %d %d %s 01" % (code, code, "00" * 16))
+    short_pw = [gen.rbytes(rng, rng.choice([1, 5, 64, 1024, 4096]), False) for _ in range(6 if thorough else 1)]
+    for pw in short_pw:
+        for alg in (1, 2):
+            lines.append("keytype %d %d %s %s" % (alg, alg, pw.hex(), gen.hx(gen.rbytes(rng, rng.randint(5, 32), False))))
+
+    calls = []
+    for alg in (0, 1, 2, 3, 64, 200):
+        for pw in ([b"", b"a", b"maplesyrup", gen.rbytes(rng, 100, False)] if thorough else [b"", b"a", b"maplesyrup"]):
+            calls.append(["master", alg, pw.hex()])
+        for n in (0, 15, 16, 17, 20, 21):
+            calls.append(["localized", alg, gen.rbytes(rng, n, False).hex(), gen.rbytes(rng, rng.randint(0, 32), False).hex()])
+    sess = []
+    for alg, aalg in (("md5", 1), ("sha1", 2)):
+        for kt in (0, 1, 2):
+            for n in ([1, 8, KS[aalg] - 1, KS[aalg], KS[aalg] + 5] if kt else [1, 8, 33]):
+                sess.append({"alg": alg, "kt": kt, "key": gen.rbytes(rng, n, False).hex(), "engine": gen.rbytes(rng, rng.randint(5, 32), False).hex()})
+
+    return lines, calls, sess, short_pw
 
 
 def api_main(g, job):
